@@ -41,6 +41,7 @@ type specEnv struct {
 	pol        int  // +1 positive, -1 negative, 0 unknown/both (after first use it is never 0 at top level)
 	assertMode bool // the formula being evaluated is a proof goal (not an assumption)
 	polSet     bool
+	hoist      map[*SNode]specVal // binder-independent subterms of the quantifier being evaluated
 }
 
 // envForFrame builds the environment of the function under verification.
@@ -50,9 +51,10 @@ func (c *Ctx) envForFrame(st *State, fr *Frame) *specEnv {
 	fn := fr.fn
 	env.fn = fn
 	env.pkg = c.typesPkgOf(fn)
-	for _, p := range fn.Params {
+	for i, p := range fn.Params {
 		if v, ok := fr.regs[p]; ok {
 			env.vars[p.Name()] = specVal{t: c.toTerm(st, v), typ: p.Type()}
+			env.vars[fmt.Sprintf("$%d", i)] = env.vars[p.Name()]
 		}
 	}
 	for _, fv := range fn.FreeVars {
@@ -152,6 +154,11 @@ var (
 )
 
 func (c *Ctx) evalSpec(env *specEnv, n *SNode) (specVal, error) {
+	if env.hoist != nil {
+		if v, ok := env.hoist[n]; ok {
+			return v, nil
+		}
+	}
 	st := env.st
 	switch n.Op {
 	case "lit-int":
@@ -283,10 +290,19 @@ func (c *Ctx) evalSpec(env *specEnv, n *SNode) (specVal, error) {
 			env.vars[v[0]] = specVal{Term{name, c.Reg.SortOf(t)}, t}
 			binders = append(binders, fmt.Sprintf("(%s %s)", name, c.Reg.SortOf(t)))
 		}
+		// subterms that do not mention a bound variable are evaluated once, outside the binder
+		// (they get named and keep their side facts; the quantified formula stays small)
+		var hoisted []*SNode
+		if len(env.st.qbinders) == 0 {
+			hoisted = c.hoistClosed(env, n)
+		}
 		savedB := env.st.qbinders
 		env.st.qbinders = append(append([]string(nil), savedB...), binders...)
 		body, err := c.evalBool(env, n.Args[0])
 		env.st.qbinders = savedB
+		for _, h := range hoisted {
+			delete(env.hoist, h)
+		}
 		env.qdepth--
 		for _, v := range n.Vars {
 			delete(env.vars, v[0])
@@ -724,6 +740,37 @@ func (c *Ctx) evalCall(env *specEnv, n *SNode) (specVal, error) {
 		return nil, fmt.Errorf("%s: argument %d is not a type", n.Text, i)
 	}
 	switch n.Text {
+	case "at":
+		// at(<snapshot>, e): e evaluated in the heap recorded by `site ... snapshot <snapshot>`
+		if len(n.Args) != 2 || n.Args[0].Op != "id" {
+			return specVal{}, fmt.Errorf("at expects a snapshot name and an expression")
+		}
+		snap, ok := st.snaps[n.Args[0].Text]
+		if !ok {
+			return specVal{}, fmt.Errorf("snapshot %q has not been taken on this path", n.Args[0].Text)
+		}
+		{
+			cur := st.arrays
+			tmp := make(map[string]Term, len(cur))
+			for fam, t := range cur {
+				if o, ok := snap[fam]; ok {
+					tmp[fam] = o
+				} else if e, ok := st.entry[fam]; ok {
+					tmp[fam] = e
+				} else {
+					tmp[fam] = t
+				}
+			}
+			st.arrays = tmp
+			v, err := c.evalSpec(env, n.Args[1])
+			for fam, t := range tmp {
+				if _, ok := cur[fam]; !ok {
+					cur[fam] = t
+				}
+			}
+			st.arrays = cur
+			return v, err
+		}
 	case "old":
 		if env.oldArrays != nil {
 			// evaluate in the pre-state: the heap and ghost families have their versions of
@@ -888,8 +935,7 @@ func (c *Ctx) evalCall(env *specEnv, n *SNode) (specVal, error) {
 		if err != nil {
 			return specVal{}, err
 		}
-		_, ok := c.lookupSent(st, x.t)
-		return specVal{BoolLit(ok), tBool}, nil
+		return specVal{Select(c.Arr(st, "SentNow", ArraySort(SInt, SBool)), x.t), tBool}, nil
 	case "waited":
 		// waited(wg): WaitGroup.Wait() on wg has returned on this path
 		x, err := argv(0)
@@ -953,6 +999,22 @@ func (c *Ctx) evalCall(env *specEnv, n *SNode) (specVal, error) {
 		}
 		_, ok = st.callArgs[name+"#"+n.Args[1].Text]
 		return specVal{BoolLit(ok), tBool}, nil
+	case "callrecv":
+		// callrecv(Method, siteOrdinal): the interface value that method call was made on
+		if len(n.Args) != 2 || n.Args[1].Op != "lit-int" {
+			return specVal{}, fmt.Errorf("callrecv(method, site) expects a literal ordinal")
+		}
+		{
+			name, ok := typeTextOf(n.Args[0])
+			if !ok {
+				return specVal{}, fmt.Errorf("callrecv: bad method name")
+			}
+			vals, ok := st.callArgs["recv:"+name+"#"+n.Args[1].Text]
+			if !ok || len(vals) == 0 {
+				return specVal{c.FreshConst(st, "nocall", SAny), tAny}, nil
+			}
+			return specVal{c.toTerm(st, vals[0]), tAny}, nil
+		}
 	case "callarg":
 		// callarg(Callee, siteOrdinal, k): the k-th argument (receiver excluded for interface
 		// calls) of that call on the current path
@@ -1113,6 +1175,28 @@ func (c *Ctx) evalCall(env *specEnv, n *SNode) (specVal, error) {
 		}
 		vis := st.arrays[it.Visited]
 		return specVal{Select(vis, c.coerce(st, k, it.K)), tBool}, nil
+	case "sprintf":
+		// the model of fmt.Sprintf: sprintf(format, a1, ...) with the arguments boxed as any
+		if len(n.Args) < 1 || len(n.Args) > 7 {
+			return specVal{}, fmt.Errorf("sprintf expects a format and at most 6 arguments")
+		}
+		var parts []string
+		sorts := []Sort{SString}
+		for i := range n.Args {
+			v, err := argv(i)
+			if err != nil {
+				return specVal{}, err
+			}
+			if i == 0 {
+				parts = append(parts, v.t.S)
+				continue
+			}
+			parts = append(parts, c.coerce(st, v, types.NewInterfaceType(nil, nil)).S)
+			sorts = append(sorts, SAny)
+		}
+		fn := fmt.Sprintf("sprintf_%d", len(n.Args)-1)
+		c.Reg.DeclFun(fn, sorts, SString)
+		return specVal{T(SString, "(%s %s)", fn, strings.Join(parts, " ")), types.Typ[types.String]}, nil
 	case "strcontains", "strprefix", "strsuffix":
 		a, err := argv(0)
 		if err != nil {
@@ -1162,7 +1246,7 @@ func (c *Ctx) evalCall(env *specEnv, n *SNode) (specVal, error) {
 			return specVal{x.t, t}, nil
 		}
 	}
-	return specVal{}, fmt.Errorf("unknown spec function %q", n.Text)
+	return specVal{}, fmt.Errorf("unknown spec function %q (pkg %v, %d defs, %d args)", n.Text, env.pkg, len(c.Pures[n.Text]), len(n.Args))
 }
 
 func (c *Ctx) findIter(env *specEnv) *RangeIter {
@@ -1187,6 +1271,27 @@ func (c *Ctx) findIter(env *specEnv) *RangeIter {
 	}
 	if n == 1 {
 		return only
+	}
+	if env.loopHead != nil {
+		// an inner loop without its own map iterator: the nearest enclosing map-range loop
+		var best *RangeIter
+		var bestB *ssa.BasicBlock
+		for v, val := range env.frame.regs {
+			it, ok := val.(*RangeIter)
+			if !ok || !it.IsMap {
+				continue
+			}
+			for _, ref := range *v.Referrers() {
+				nx, ok := ref.(*ssa.Next)
+				if !ok || !nx.Block().Dominates(env.loopHead) {
+					continue
+				}
+				if bestB == nil || bestB.Dominates(nx.Block()) {
+					best, bestB = it, nx.Block()
+				}
+			}
+		}
+		return best
 	}
 	return nil
 }
@@ -1471,4 +1576,118 @@ func (c *Ctx) typeOfCallArg(env *specEnv, callee string, ord string, k int) type
 		}
 	}
 	return tAny
+}
+
+// hoistClosed evaluates, in the context outside quantifier q, the maximal subterms of its
+// body that mention none of the variables bound in q; the results are cached for the
+// evaluation of the body. Returns the cached nodes.
+func (c *Ctx) hoistClosed(env *specEnv, q *SNode) []*SNode {
+	bound := map[string]bool{}
+	var collect func(n *SNode)
+	collect = func(n *SNode) {
+		if n == nil {
+			return
+		}
+		for _, v := range n.Vars {
+			bound[v[0]] = true
+		}
+		for _, a := range n.Args {
+			collect(a)
+		}
+	}
+	collect(q)
+	var out []*SNode
+	var closed func(n *SNode) bool
+	closed = func(n *SNode) bool {
+		if n == nil {
+			return true
+		}
+		switch n.Op {
+		case "id":
+			return !bound[n.Text] && n.Text != "rangeidx" && n.Text != "outeridx"
+		case "forall", "exists", "typelit":
+			return false
+		}
+		if n.Op == "call" && (n.Text == "typeis" || n.Text == "visited") && len(n.Args) > 0 {
+			// the first argument is an ordinary expression, the rest is syntax
+			if closed(n.Args[0]) {
+				c.tryHoist(env, n.Args[0], &out)
+			}
+			return false
+		}
+		if n.Op == "call" && (n.Text == "old" || n.Text == "at" || n.Text == "visited" || n.Text == "typeis" || n.Text == "zero" || n.Text == "callarg" || n.Text == "callres" || n.Text == "callrecv" || n.Text == "called") {
+			// state-switching or syntactic forms: never split; hoist as a whole when closed
+			all := true
+			for _, a := range n.Args {
+				if !idsFree(a, bound) {
+					all = false
+				}
+			}
+			return all && n.Text != "typeis" && n.Text != "zero" && n.Text != "visited"
+		}
+		cl := make([]bool, len(n.Args))
+		all := true
+		for i, a := range n.Args {
+			cl[i] = closed(a)
+			if !cl[i] {
+				all = false
+			}
+		}
+		if all {
+			return true
+		}
+		for i, a := range n.Args {
+			if cl[i] {
+				c.tryHoist(env, a, &out)
+			}
+		}
+		return false
+	}
+	body := q.Args[0]
+	if closed(body) {
+		return nil // a closed body needs no quantifier tricks
+	}
+	return out
+}
+
+func idsFree(n *SNode, bound map[string]bool) bool {
+	if n == nil {
+		return true
+	}
+	if n.Op == "id" && bound[n.Text] {
+		return false
+	}
+	for _, v := range n.Vars {
+		_ = v
+		return false
+	}
+	for _, a := range n.Args {
+		if !idsFree(a, bound) {
+			return false
+		}
+	}
+	return true
+}
+
+func (c *Ctx) tryHoist(env *specEnv, n *SNode, out *[]*SNode) {
+	switch n.Op {
+	case "sel", "idx", "typeassert", "call", "un":
+	default:
+		return
+	}
+	if n.Op == "un" && n.Text != "*" {
+		return
+	}
+	savedErrs := len(c.Errors)
+	v, err := c.evalSpec(env, n)
+	c.Errors = c.Errors[:savedErrs]
+	if err != nil || v.t.Sort == SBool {
+		return
+	}
+	v.t = c.Name(env.st, "hs", v.t)
+	if env.hoist == nil {
+		env.hoist = map[*SNode]specVal{}
+	}
+	env.hoist[n] = v
+	*out = append(*out, n)
 }
